@@ -46,6 +46,10 @@ type filterCase struct {
 	// Chunk: in-memory run size of the sorter the hits are pushed to (0 = 4096). Small values make
 	// the hit store spill to run files, in particular after an earlier query that stayed in memory.
 	Chunk int `json:"chunk,omitempty"`
+	// Block > 0 (ordinary comparison only): target and query each hold a run of Block identical letters,
+	// starting at T0 and Q0; the planted match is the first window of the two runs. Every tube across the
+	// runs then collects tens of thousands of common k-mers in one run of hits.
+	Block int `json:"block,omitempty"`
 }
 
 // expand is a pure function of the seed: a fixed linear congruential sequence mapped to ACGT.
@@ -80,6 +84,12 @@ func (c filterCase) sequences() (t, q []byte) {
 	}
 	t = expand(c.SeedT, c.TLen)
 	q = expand(c.SeedQ, c.QLen)
+	if c.Block > 0 {
+		for i := 0; i < c.Block; i++ {
+			t[c.T0+i], q[c.Q0+i] = 'A', 'A'
+		}
+		return t, q
+	}
 	copy(q[c.Q0:c.Q0+c.N], t[c.T0:c.T0+c.N])
 	for _, p := range c.Subs {
 		q[c.Q0+p] = other(q[c.Q0+p])
@@ -425,6 +435,18 @@ func gen(t *rapid.T) filterCase {
 	if !c.Self && rapid.IntRange(0, 7).Draw(t, "reuse-after-self") == 3 {
 		c.PreSelf = true
 	}
+	if !c.Self && rapid.IntRange(0, 39).Draw(t, "low-complexity-block") == 17 {
+		c.Block = rapid.IntRange(1500, 3000).Draw(t, "block")
+		if need := 70000/c.Block + 1; c.Off+c.E < need {
+			c.Off = need
+		}
+		c.T0 = rapid.IntRange(0, 200).Draw(t, "block-t0")
+		c.Q0 = rapid.IntRange(0, 400).Draw(t, "block-q0")
+		c.TLen = c.T0 + c.Block + rapid.IntRange(c.N, 300+c.N).Draw(t, "block-t-tail")
+		c.QLen = c.Q0 + c.Block + rapid.IntRange(c.N, 300+c.N).Draw(t, "block-q-tail")
+		c.PreSeed, c.PreLen, c.PreSelf = 0, 0, false
+		return c
+	}
 	ns := rapid.IntRange(0, c.E).Draw(t, "nsubs")
 	seen := map[int]bool{}
 	for len(c.Subs) < ns {
@@ -438,6 +460,9 @@ func gen(t *rapid.T) filterCase {
 }
 
 func classes(c filterCase) []string {
+	if c.Block > 0 {
+		return []string{"low-complexity-block-in-both-sequences", vlib.NT}
+	}
 	var l []string
 	thr := c.N + 1 - c.K*(c.E+1)
 	if len(c.Subs) >= 1 && thr >= 2 {
